@@ -141,7 +141,8 @@ structure DigestOut (KB : Nat) (st st' : St V) (leaves : List (Leaf V)) (res : D
   fin : res = .finished → st'.ops = [] ∧ st'.gauge = {} ∧ st'.sepOv = none ∧
     SepChainEnd st.cutoff (separator st) leaves
   merge : ∀ c, res = .needsMerge c → st.cutoff = some c ∧ AllIns st'.ops ∧ den st'.base st'.ops ≠ [] ∧
-    bodyOf (den st'.base st'.ops) < MERGE ∧ SepChain (separator st) leaves (separator st')
+    bodyOf (den st'.base st'.ops) < MERGE ∧ SepChain (separator st) leaves (separator st') ∧
+    st'.sepOv = some (separator st')
 
 theorem digest_spec (sepf : Nat → Nat → Option Nat) (KB : Nat) (hsep : SepOK sepf KB) (st : St V) (hinv : Inv KB st) :
     ∃ st' leaves res, digest sepf st = some (st', leaves, res) ∧ DigestOut KB st st' leaves res := by
@@ -265,7 +266,7 @@ theorem digest_spec (sepf : Nat → Nat → Option Nat) (KB : Nat) (hsep : SepOK
         · intro hn; simp only at hn; rw [hden'] at hn; exact absurd hn hdne
       · intro c' hc'
         cases hc'
-        refine ⟨hcutc.symm, m2, ?_, ?_, ?_⟩
+        refine ⟨hcutc.symm, m2, ?_, ?_, ?_, rfl⟩
         · simp only; rw [hden']; exact hdne
         · simp only; rw [hden']; omega
         · rw [hsep', hsep2]; exact hch
